@@ -127,7 +127,6 @@ def run(tier):
             b.update(none=[False, False, False], idx=evs[1]['wl'][0][1], bc=evs[1]['wl'][0][0], d=2)   # assigned beyond k / on a tie
             evs[2]['ans'] = evs[2]['ans'][1:]               # dropped observation
             return evs
-        vlib.corrupt_selftest(c, 'Trace_Barcode', smalls, mut_small, 'small_wrong_distance_assign_unassigned_drop')
         i0 = next(i for i, e in enumerate(events) if e['ev'] == 'wl' and e['k'] == 1)
         grp = [events[i0]] + [e for e in events[i0 + 1:i0 + 150] if e['ev'] == 'q']
 
@@ -136,7 +135,12 @@ def run(tier):
             other = next(en for en in evs[0]['entries'] if en[0] != hit['bc'])
             hit['idx'] = other[1]                           # index of another cell
             return evs
-        vlib.corrupt_selftest(c, 'Trace_Barcode', grp, mut_q, 'shipped_index_of_other_cell')
+        # one TLC run for both groups: the 3 corrupted small events and the corrupted shipped lookup must all be rejected
+        import copy
+        bad = mut_small(copy.deepcopy(smalls)) + mut_q(copy.deepcopy(grp))
+        r = vlib.validate_trace('Trace_Barcode', vlib.write_ndjson(os.path.join(vlib.scratch(), 'c03_selftest.ndjson'), bad))
+        c.selftest('wrong_distance+assign_unassigned+dropped_answer+index_of_other_cell', len(r['rejects']) == 4,
+                   '%d of 4 corrupted observations rejected' % len(r['rejects']))
     c.assumptions += ['whitelist files contain no exact duplicate barcodes and one file per alias (other cases are recorded as '
                       'observations, not judged)',
                       'index tokens are compared as text (str(index)); index tokens without leading zeros']
